@@ -6,6 +6,7 @@ const MODELLED_RANGE: bool = true;
 const MODELLED_RPATH: bool = true;
 const MODELLED_FRANGE: bool = true;
 const MODELLED_INFO: bool = true;
+const MODELLED_CD: bool = false;
 
 const EXTREMES: &[u64] = &[0, 1, 2, 9, 10, 15, 16, 125, 126, 127, 255, 256, 65535, 65536, 1 << 31, (1 << 31) + 1, 1 << 32, 1 << 63, (1 << 63) - 1, u64::MAX - 1, u64::MAX];
 const INJECT: &[&[u8]] = &[b"\r", b"\n", b"\r\n", b"\0", b"\xff", b"\xc3\xa9", b"\xe2\x82\xac", b"\xf0\x9f\x98\x80", b"\xc0\xaf", b"\xed\xa0\x80", b"%", b"%2", b"%zz", b"%00", b"%2F", b"%ff", b"\"", b"\\", b";", b",", b"=", b" ", b"\t", b"*", b"'", b"+", b"-", b":", b"[", b"]", b"{", b"}", b"/", b"//", b"..", b"?", b"#", b"&"];
@@ -612,13 +613,19 @@ pub fn gen(ctx: &Ctx) -> Vec<String> {
             push(&mut cases, format!("hdr h={name} {}", hex(&r)));
         }
     }
-    for s in TYPED_SEEDS[0].1 {
+    const CD_SEEDS: &[&[u8]] = &[
+        b"form-data; name=\"f\"; filename=\"a b.txt\"", b"inline", b"form-data; name=x; dummy=3", b"attachment; filename=\"a\\\"b\\\\c\"; x=y",
+        b"Form-Data ; NAME = \"\xe2\x82\xac\" ;FileName=tok;", b"attachment;filename=\"\";;", b"x; a=\"unterminated", b"; name=x", b"a; =v", b"a; n=", b"a; n=\"q\"junk; m=2",
+        b"\xc2\xa0 inline \xe2\x80\x83; \xe3\x80\x80name\xc2\xa0=\xc2\xa0v\xc2\xa0", b"form-data; name=\"a\\\xe2\x82\xac\"",
+    ];
+    let cd_entry = if MODELLED_CD { "cdm" } else { "cd" };
+    for s in TYPED_SEEDS[0].1.iter().chain(CD_SEEDS.iter()) {
         for cut in 0..=s.len() {
-            push(&mut cases, format!("cd {}", hex(&s[..cut])));
+            push(&mut cases, format!("{cd_entry} {}", hex(&s[..cut])));
         }
-        for _ in 0..b(150) {
+        for _ in 0..b(120) {
             let v = { let m = mutate(&mut rng, s); hv_safe_mostly(&mut rng, m) };
-            push(&mut cases, format!("cd {}", hex(&v)));
+            push(&mut cases, format!("{cd_entry} {}", hex(&v)));
         }
     }
     for s in COOKIE_SEEDS {
